@@ -131,7 +131,7 @@ def lean_check(prop_modules, want_leanchecker=False):
             f.write(f"#print axioms {t}\n")
     rc, out = sh(["lake", "env", "lean", audit], cwd=LEAN, timeout=1200)
     cur = None
-    text = out.replace("\n  ", " ")
+    text = re.sub(r"\n[ \t]+", " ", out)  # #print axioms wraps long lines with an indented continuation
     for line in text.splitlines():
         m = re.match(r"'([^']+)' depends on axioms: \[(.*)\]", line)
         if m:
